@@ -6203,3 +6203,188 @@ func ruleFieldCache(c *Ctx, r *Rep) {
 		r.OK("fieldcache:none", token.NoPos, "no function of package gojq uses a map-typed struct field as a cache")
 	}
 }
+
+// ---------------------------------------------------------------------------------------------------------------------
+// R-C02-release: a value that comes back from the update function is not trusted to be unshared.
+
+func init() {
+	reg(&Rule{ID: "R-C02-release", Props: []string{"C02", "C05"}, Floor: 1,
+		Doc: "before setpath stores a new value under an allocator, it gives up the allocator's ownership of every container reachable from that value (a method of the allocator that deletes its argument's address and recurses into arrays and objects, called on the new value ahead of update): the update function may have put a container allocated by an earlier step into its output, twice, and an in-place write through one of the two positions would change the other",
+		Run: ruleRelease})
+	addDecided("C02", " Ownership of what the update function returns is given up before it is stored (R-C02-release; D50).")
+}
+
+func ruleRelease(c *Ctx, r *Rep) {
+	info := c.Gojq.TypesInfo
+	fd := c.Decl(c.Gojq, "setpath")
+	if fd == nil || fd.Type.Params == nil {
+		r.Undecided("release:anchor", token.NoPos, "setpath not found")
+		return
+	}
+	var params []types.Object
+	for _, f := range fd.Type.Params.List {
+		for _, nm := range f.Names {
+			params = append(params, info.Defs[nm])
+		}
+	}
+	var allocObj, newObj types.Object
+	for _, p := range params {
+		if n := namedOf(p.Type()); n != nil && n.Obj().Name() == "allocator" {
+			allocObj = p
+		}
+	}
+	if len(params) >= 3 {
+		newObj = params[2]
+	}
+	if allocObj == nil || newObj == nil {
+		r.Undecided("release:params", fd.Pos(), "setpath does not take (value, path, new value, allocator)")
+		return
+	}
+	var updatePos token.Pos
+	ast.Inspect(fd.Body, func(m ast.Node) bool {
+		if call, ok := m.(*ast.CallExpr); ok && calleeName(info, call) == "gojq.update" && !updatePos.IsValid() {
+			updatePos = call.Pos()
+		}
+		return true
+	})
+	good := ""
+	ast.Inspect(fd.Body, func(m ast.Node) bool {
+		call, ok := m.(*ast.CallExpr)
+		if !ok || len(call.Args) != 1 || (updatePos.IsValid() && call.Pos() > updatePos) {
+			return true
+		}
+		sel, ok := call.Fun.(*ast.SelectorExpr)
+		if !ok {
+			return true
+		}
+		if id, ok := unparen(sel.X).(*ast.Ident); !ok || info.ObjectOf(id) != allocObj {
+			return true
+		}
+		if id, ok := unparen(call.Args[0]).(*ast.Ident); !ok || info.ObjectOf(id) != newObj {
+			return true
+		}
+		d := c.Decl(c.Gojq, "allocator."+sel.Sel.Name)
+		if d == nil {
+			return true
+		}
+		deletes, recurses, arrays, objects := false, false, false, false
+		ast.Inspect(d.Body, func(q ast.Node) bool {
+			switch x := q.(type) {
+			case *ast.CallExpr:
+				if id, ok := x.Fun.(*ast.Ident); ok && id.Name == "delete" {
+					deletes = true
+				}
+				if s2, ok := x.Fun.(*ast.SelectorExpr); ok && s2.Sel.Name == sel.Sel.Name {
+					recurses = true
+				}
+			case *ast.CaseClause:
+				for _, e := range x.List {
+					switch types.ExprString(e) {
+					case "[]any":
+						arrays = true
+					case "map[string]any":
+						objects = true
+					}
+				}
+			}
+			return true
+		})
+		if deletes && recurses && arrays && objects {
+			good = "allocator." + sel.Sel.Name
+		}
+		return true
+	})
+	r.Check(good != "", "release:setpath", fd.Pos(), "setpath gives up ownership of the containers in the new value before update stores it (%s): %v — `{\"a\":[[0]]} | (.a[0][0], .a, .a[0][0]) |= (if type == \"number\" then .+1 else [.[0], .[0]] end)` otherwise yields [[2],[2]] where the defining reduction gives [[2],[1]]: the duplicated array is still owned and is written in place through one of its two positions", good, good != "")
+}
+
+// ---------------------------------------------------------------------------------------------------------------------
+// R-C02-inplaceslice: a slice update writes into the owned array only what does not look back into it.
+
+func init() {
+	reg(&Rule{ID: "R-C02-inplaceslice", Props: []string{"C02", "C08", "C05"}, Floor: 1,
+		Doc: "where updateArraySlice reuses the array it owns for the result of a slice update (instead of building a new one), it has checked that the replacement contains no slice of that array (a negated call, in the same condition, of a function that compares data pointers against the array's span): the update function was handed such a slice as its input, and written back in place `[0,1] | (.[1:],.[1:]) |= [.]` makes the array an element of itself — a cyclic value that overflows the stack of whatever walks it next",
+		Run: ruleInPlaceSlice})
+	addDecided("C02", " The in-place branch of a slice update refuses a replacement that contains a slice of the array itself (R-C02-inplaceslice; D7).")
+}
+
+func ruleInPlaceSlice(c *Ctx, r *Rep) {
+	info := c.Gojq.TypesInfo
+	fd := c.Decl(c.Gojq, "updateArraySlice")
+	if fd == nil || fd.Type.Params == nil {
+		r.Undecided("inplaceslice:anchor", token.NoPos, "updateArraySlice not found")
+		return
+	}
+	arr := info.Defs[fd.Type.Params.List[0].Names[0]]
+	n := 0
+	ast.Inspect(fd.Body, func(m ast.Node) bool {
+		cc, ok := m.(*ast.CaseClause)
+		if !ok || len(cc.List) != 1 || types.ExprString(cc.List[0]) != "[]any" {
+			return true
+		}
+		ast.Inspect(cc, func(q ast.Node) bool {
+			ifs, ok := q.(*ast.IfStmt)
+			if !ok {
+				return true
+			}
+			reuses := false
+			for _, st := range ifs.Body.List {
+				if as, ok := st.(*ast.AssignStmt); ok && len(as.Rhs) == 1 {
+					if id, ok := unparen(as.Rhs[0]).(*ast.Ident); ok && info.ObjectOf(id) == arr {
+						reuses = true
+					}
+				}
+			}
+			if !reuses {
+				return true
+			}
+			n++
+			checked := ""
+			ast.Inspect(ifs.Cond, func(w ast.Node) bool {
+				u, ok := w.(*ast.UnaryExpr)
+				if !ok || u.Op != token.NOT {
+					return true
+				}
+				call, ok := unparen(u.X).(*ast.CallExpr)
+				if !ok || len(call.Args) != 2 {
+					return true
+				}
+				if id, ok := unparen(call.Args[1]).(*ast.Ident); !ok || info.ObjectOf(id) != arr {
+					return true
+				}
+				f, ok := callee(info, call).(*types.Func)
+				if !ok {
+					return true
+				}
+				d := c.Decl(c.Gojq, f.Name())
+				if d == nil {
+					return true
+				}
+				ptr, span, rec := false, false, false
+				ast.Inspect(d.Body, func(z ast.Node) bool {
+					if cl, ok := z.(*ast.CallExpr); ok {
+						if s, ok := cl.Fun.(*ast.SelectorExpr); ok && s.Sel.Name == "Pointer" {
+							ptr = true
+						}
+						if id, ok := cl.Fun.(*ast.Ident); ok && id.Name == "cap" {
+							span = true
+						}
+						if id, ok := cl.Fun.(*ast.Ident); ok && id.Name == f.Name() {
+							rec = true
+						}
+					}
+					return true
+				})
+				if ptr && span && rec {
+					checked = f.Name()
+				}
+				return true
+			})
+			r.Check(checked != "", "inplaceslice:[]any", ifs.Pos(), "updateArraySlice reuses its own array for the result only after !%s(replacement, array), which compares data pointers with the array's span recursively: %v — without it `[0,1] | (.[1:],.[1:]) |= [.]` builds a cyclic value and the process dies with a stack overflow", checked, checked != "")
+			return true
+		})
+		return false
+	})
+	if n == 0 {
+		r.Undecided("inplaceslice:census", fd.Pos(), "updateArraySlice has no branch that reuses its array for an array-valued replacement")
+	}
+}
